@@ -91,7 +91,12 @@ def make(cfg, numpy_params=False):
         div = probe
     cls = CDBD if cfg["cls"] == "CDBD" else HDDDM
     kw_ = dict(detect_batch=cfg["detect_batch"], statistic=cfg["statistic"], significance=cfg["significance"], subsets=cfg["subsets"])
-    det = cls(divergence=div, **(gen.numpyfy(kw_) if numpy_params else kw_))
+    try:
+        det = cls(divergence=div, **(gen.numpyfy(kw_) if numpy_params else kw_))
+    except (ValueError, TypeError):
+        if not numpy_params:
+            raise
+        det = cls(divergence=div, **kw_)  # a constructor may insist on plain Python types
     mdiv = tv if cfg["divergence"] == "probe" else cfg["divergence"]
     model = H.HDMModel(mdiv, cfg["detect_batch"], cfg["statistic"], cfg["significance"])
     return det, model, probe
